@@ -253,6 +253,14 @@ fn decode_frame(
             .into()
         }
         Kind::GoAway => {
+            // GOAWAY applies to the connection: "An endpoint MUST treat a
+            // GOAWAY frame with a stream identifier other than 0x00 as a
+            // connection error of type PROTOCOL_ERROR" (RFC 9113 section 6.8).
+            if !head.stream_id().is_zero() {
+                proto_err!(conn: "GO_AWAY frame with non-zero stream ID; id={:?}", head.stream_id());
+                return Err(Error::library_go_away(Reason::PROTOCOL_ERROR));
+            }
+
             let res = frame::GoAway::load(&bytes[frame::HEADER_LEN..]);
             res.map_err(|e| {
                 proto_err!(conn: "failed to load GO_AWAY frame; err={:?}", e);
